@@ -217,6 +217,13 @@ def _twin_funcs() -> Tuple[Any, Any]:
 
 
 def dispatch_case(regs: List[Tuple[int, int]], via_frames: bool) -> Optional[str]:
+    try:
+        return _dispatch_case(regs, via_frames)
+    except Exception as ex:
+        return f"the dispatcher API (register / dispatch / registry / call) raised {ex!r}"
+
+
+def _dispatch_case(regs: List[Tuple[int, int]], via_frames: bool) -> Optional[str]:
     """regs: (which code 0/1/2(other), hook id).  Fresh dispatcher per case."""
     f1, f2 = _twin_funcs()
 
@@ -257,6 +264,8 @@ def dispatch_case(regs: List[Tuple[int, int]], via_frames: bool) -> Optional[str
                 return f"code {t}: dispatch returned {got!r}, expected hook {latest[t]}"
             if disp(arg) != ("hook", latest[t]):
                 return f"code {t}: call went to wrong hook"
+    if getattr(disp, "__name__", None) != "disp" or getattr(disp, "__wrapped__", None) is None:
+        return "the dispatcher does not carry the metadata of the function it wraps"
     if len(disp.registry) != len(latest):
         return f"registry has {len(disp.registry)} entries for {len(latest)} distinct code objects"
     for t in latest:
@@ -444,6 +453,24 @@ def _nested_one(path: Tuple[str, ...], wrap: int, ns: Dict[str, Any]) -> Optiona
         return None if (isinstance(got, types.CodeType) and got.co_name == path[-1]) else "class body code not found"
     if got is not exp:
         return f"get_code(outer, {path}) returned {got.co_qualname if hasattr(got,'co_qualname') else got!r}, expected {exp.co_qualname}"
+    # the same path through a registration, in both forms: register(target, *names, hook) and register(target, *names)(hook)
+    for form in (0, 1):
+        @code_dispatch(lambda c: c)
+        def disp(c: Any) -> Any:
+            return "default"
+
+        def hook(c: Any) -> Any:
+            return "hook"
+
+        try:
+            if form == 0:
+                disp.register(target, *path, hook)
+            else:
+                disp.register(target, *path)(hook)
+            if disp.dispatch(exp) is not hook or disp(exp) != "hook" or len(disp.registry) != 1:
+                return f"register(outer, *{path}, hook) [form {form}] did not register on the code object the path names"
+        except Exception as ex:
+            return f"register(outer, *{path}, hook) [form {form}] raised {ex!r}"
     return None
 
 
